@@ -486,11 +486,90 @@ def _strip_doc(body):
     return body
 
 
+def _local_names(fn):
+    """Names BOUND inside the function (assignment / augmented assignment / for /
+    with-as / except-as / comprehension targets); parameters are not included:
+    they are part of the signature callers may use by keyword."""
+    params = {a.arg for a in fn.args.args + fn.args.kwonlyargs + fn.args.posonlyargs}
+    if fn.args.vararg:
+        params.add(fn.args.vararg.arg)
+    if fn.args.kwarg:
+        params.add(fn.args.kwarg.arg)
+    out = set()
+    for n in ast.walk(fn):
+        if isinstance(n, ast.Name) and isinstance(n.ctx, (ast.Store, ast.Del)):
+            out.add(n.id)
+        elif isinstance(n, ast.ExceptHandler) and n.name:
+            out.add(n.name)
+    return out - params
+
+
+class _Normalise(ast.NodeTransformer):
+    """Cosmetic normal form of a statement: function-local names become v1, v2, ...
+    in order of first occurrence in what is PRINTED; annotations are dropped
+    (`x: int = 0` == `x = 0`); docstrings, comments, layout and parenthesisation
+    are already gone with ast.unparse.  Attributes (self.*), calls, control flow,
+    comparisons, constants and keyword names are left exactly as they are."""
+
+    def __init__(self, locals_, table):
+        self.locals = locals_
+        self.table = table
+
+    def _name(self, ident):
+        if ident not in self.locals:
+            return ident
+        if ident not in self.table:
+            self.table[ident] = "v%d" % (len(self.table) + 1)
+        return self.table[ident]
+
+    def visit_Name(self, node):
+        return ast.copy_location(ast.Name(id=self._name(node.id), ctx=node.ctx), node)
+
+    def visit_ExceptHandler(self, node):
+        self.generic_visit(node)
+        if node.name:
+            node.name = self._name(node.name)
+        return node
+
+    def visit_AnnAssign(self, node):
+        self.generic_visit(node)
+        if node.value is None:
+            return None
+        return ast.copy_location(ast.Assign(targets=[node.target], value=node.value, lineno=node.lineno), node)
+
+    def visit_arg(self, node):
+        node.annotation = None
+        return node
+
+
+def _norm_lines(stmts, locals_, table, indent="    "):
+    import copy
+    out = []
+    for st in stmts:
+        st2 = _Normalise(locals_, table).visit(copy.deepcopy(st))
+        if st2 is None:
+            continue
+        ast.fix_missing_locations(st2)
+        out += [indent + l for l in ast.unparse(st2).split("\n")]
+    return out
+
+
+def _norm_args(fn):
+    import copy
+    a = copy.deepcopy(fn.args)
+    for x in a.args + a.kwonlyargs + a.posonlyargs + [y for y in (a.vararg, a.kwarg) if y]:
+        x.annotation = None
+    return ast.unparse(a)
+
+
 def channel_signature(path=None):
-    """Normalised source (ast.unparse: comments and layout gone, docstrings
-    dropped) of what Model/ChanExpect.v represents: HTTPChannel.received,
+    """Normalised source of what Model/ChanExpect.v represents: HTTPChannel.received,
     send_continue, and of service() the first statement and everything from
-    `if task.close_on_finish:` to the end."""
+    `if task.close_on_finish:` to the end; plus where parser.py assigns
+    expect_continue.  The normal form is invariant under cosmetic edits (renamed
+    function-local variables, comments, docstrings, annotations, layout) and under
+    nothing else: every access to self.*, every lock scope, call, test, constant
+    and control-flow structure is seen exactly."""
     path = path or os.path.join(vcommon.SRC, "waitress", "channel.py")
     tree = ast.parse(open(path).read())
     cls = [n for n in tree.body if isinstance(n, ast.ClassDef) and n.name == "HTTPChannel"][0]
@@ -498,23 +577,23 @@ def channel_signature(path=None):
     out = []
     for name in ("received", "send_continue"):
         f = meth[name]
-        out.append("def %s(%s):" % (name, ast.unparse(f.args)))
-        for st in _strip_doc(f.body):
-            out += ["    " + l for l in ast.unparse(st).split("\n")]
+        out.append("def %s(%s):" % (name, _norm_args(f)))
+        out += _norm_lines(_strip_doc(f.body), _local_names(f), {})
     f = meth["service"]
     body = _strip_doc(f.body)
-    out.append("def service(%s):" % ast.unparse(f.args))
-    out += ["    " + l for l in ast.unparse(body[0]).split("\n")]
+    locs, table = _local_names(f), {}
+    out.append("def service(%s):" % _norm_args(f))
+    out += _norm_lines(body[:1], locs, table)
     out.append("    ...")
     k = None
     for i, st in enumerate(body):
-        if isinstance(st, ast.If) and ast.unparse(st.test) == "task.close_on_finish":
+        if isinstance(st, ast.If) and isinstance(st.test, ast.Attribute) and st.test.attr == "close_on_finish" \
+                and isinstance(st.test.value, ast.Name):
             k = i
     if k is None:
-        out.append("    <no `if task.close_on_finish:` found>")
+        out.append("    <no `if <task>.close_on_finish:` found>")
     else:
-        for st in body[k:]:
-            out += ["    " + l for l in ast.unparse(st).split("\n")]
+        out += _norm_lines(body[k:], locs, table)
     # every other place that touches sent_continue or calls send_continue
     others = []
     for name, f in meth.items():
@@ -524,28 +603,39 @@ def channel_signature(path=None):
             if isinstance(n, ast.Attribute) and n.attr in ("sent_continue", "send_continue"):
                 others.append("%s touches %s" % (name, n.attr))
     out += sorted(set(others))
-    # the parser side: where expect_continue / completed are assigned
+    # the parser side: where expect_continue is assigned, under which version test
     ppath = os.path.join(os.path.dirname(path), "parser.py")
     ptree = ast.parse(open(ppath).read())
 
-    def walk(node, ctx):
+    def walk(node, ctx, fn, table):
         for child in ast.iter_child_nodes(node):
-            c = ctx
-            if isinstance(child, (ast.FunctionDef, ast.ClassDef)):
-                c = ctx + [child.name]
+            c, f2, t2 = ctx, fn, table
+            if isinstance(child, ast.FunctionDef):
+                c, f2, t2 = ctx + [("name", child.name)], child, {}
+            elif isinstance(child, ast.ClassDef):
+                c = ctx + [("name", child.name)]
             elif isinstance(child, ast.If):
-                c = ctx + ["if " + ast.unparse(child.test)]
-            if isinstance(child, (ast.Assign, ast.AugAssign)):
+                c = ctx + [("if", child.test)]
+            if isinstance(child, (ast.Assign, ast.AugAssign, ast.AnnAssign)) and fn is not None:
                 tgts = child.targets if isinstance(child, ast.Assign) else [child.target]
+                hit = False
                 for tg in tgts:
                     if isinstance(tg, ast.Attribute) and tg.attr == "expect_continue":
-                        out.append("parser.py %s: %s" % (" / ".join(x for x in ctx if not x.startswith("if ") or "version" in x),
-                                                         ast.unparse(child)))
-                    if isinstance(tg, ast.Name) and tg.id == "expect":
-                        out.append("parser.py %s: %s" % (" / ".join(x for x in ctx if not x.startswith("if ") or "version" in x),
-                                                         ast.unparse(child)))
-            walk(child, c)
-    walk(ptree, [])
+                        hit = True
+                    if isinstance(tg, ast.Name) and isinstance(getattr(child, "value", None), ast.Call) \
+                            and "EXPECT" in ast.unparse(child.value):
+                        hit = True
+                if hit:
+                    locs = _local_names(fn)
+                    parts = []
+                    for kind, x in ctx:
+                        if kind == "name":
+                            parts.append(x)
+                        elif "1.1" in ast.unparse(x) or "version" in ast.unparse(x):
+                            parts.append("if " + _norm_lines([ast.Expr(value=x)], locs, table, "")[0])
+                    out.append("parser.py %s: %s" % (" / ".join(parts), _norm_lines([child], locs, table, "")[0]))
+            walk(child, c, f2, t2)
+    walk(ptree, [], None, {})
     return out
 
 
